@@ -32,6 +32,10 @@ More == Len(prog) < MaxLen
 AddRamp(s, k) == /\ More /\ Present(s) /\ InBound(Plus(Total(pl[s]), k))
                  /\ pl' = [pl EXCEPT ![s].ramp = Plus(@, k)]
                  /\ prog' = Log("AddRamp", s, k, <<>>)
+\* the same update made by writing INTO the plane's OPD array (no attribute assignment): same meaning
+AddRampIn(s, k) == /\ More /\ Present(s) /\ InBound(Plus(Total(pl[s]), k))
+                   /\ pl' = [pl EXCEPT ![s].ramp = Plus(@, k)]
+                   /\ prog' = Log("AddRampInplace", s, k, <<>>)
 SetBase(s, b) == /\ More /\ Present(s)
                  /\ pl' = [pl EXCEPT ![s].base = b, ![s].ramp = <<0, 0>>]     \* recorded tilt stays recorded
                  /\ prog' = Log("SetBase", s, b, <<>>)
@@ -51,12 +55,13 @@ Observe(s)    == /\ More /\ Present(s)
 Init == /\ pl = [s \in Slots |-> IF s = "P" THEN Fresh(0) ELSE Absent]
         /\ prog = <<>>
 DoAddRamp == \E s \in Slots, k \in Ramps : AddRamp(s, k)
+DoAddRampIn == \E s \in Slots, k \in Ramps : AddRampIn(s, k)
 DoSetBase == \E s \in Slots, b \in Bases : SetBase(s, b)
 DoFitIn   == \E s \in Slots : FitIn(s)
 DoFitCopy == \E s, t \in Slots : FitCopy(s, t)
 DoCopy    == \E s, t \in Slots : Copy(s, t)
 DoObserve == \E s \in Slots : Observe(s)
-Next == DoAddRamp \/ DoSetBase \/ DoFitIn \/ DoFitCopy \/ DoCopy \/ DoObserve
+Next == DoAddRamp \/ DoAddRampIn \/ DoSetBase \/ DoFitIn \/ DoFitCopy \/ DoCopy \/ DoObserve
 Spec == Init /\ [][Next]_vars
 
 \* design-level properties
